@@ -88,15 +88,52 @@ def set_initial_dosage(ploidy: int, constraint: A[iN, 1], out: A[iN, 1]):
         lemma_isum_pointwise_le(out, constraint, 0, len(out))
 
 
-@contract("mchap.pedigree.prior.gamete_log_pmf", machine_ints=True, props=["C17"], dead_branches=["if gamete_lambda > 0.0 @0 then", "if gamete_ploidy != 2 @1 then", "if gamete_ploidy != 2 @1 else"])
+@contract("mchap.pedigree.prior.gamete_log_pmf", machine_ints=True, props=["C17"])
 def gamete_log_pmf(gamete_dose: A[iN, 1], gamete_ploidy: int, parent_dose: A[iN, 1], parent_ploidy: int, gamete_lambda: float) -> float:
-    # proved for gametes without double reduction (lambda == 0); <= 6 alleles x <= 12 copies
-    requires(gamete_lambda == 0, len(gamete_dose) <= 6, len(parent_dose) >= len(gamete_dose), 0 <= gamete_ploidy, gamete_ploidy <= parent_ploidy, parent_ploidy <= 12)
+    # proved domain: <= 6 alleles x <= 12 copies; double reduction (lambda > 0) for diploid gametes
+    requires(0 <= gamete_lambda, gamete_lambda <= 1, len(gamete_dose) <= 6, len(parent_dose) >= len(gamete_dose), 0 <= gamete_ploidy, gamete_ploidy <= parent_ploidy, 1 <= parent_ploidy, parent_ploidy <= 12)
     requires(forall(0, len(gamete_dose), lambda i: 0 <= parent_dose[i] and parent_dose[i] <= 12 and 0 <= gamete_dose[i] and gamete_dose[i] <= 12))
-    # C17: the multivariate hypergeometric probability of drawing the gamete from the parent's copies
-    ensures(not isnan(result), exp(result) == BPROD(parent_dose, gamete_dose, len(gamete_dose)) / binom(parent_ploidy, gamete_ploidy))
+    requires(implies(gamete_lambda > 0, gamete_ploidy == 2 and ISUM(gamete_dose, 0, len(gamete_dose)) == 2))
+    # C17: (1 - lambda) x multivariate hypergeometric  +  lambda x (copies of the doubled allele / ploidy)
+    ensures(not isnan(result), exp(result) == (BPROD(parent_dose, gamete_dose, len(gamete_dose)) / binom(parent_ploidy, gamete_ploidy)) * (1 - gamete_lambda) + ite(gamete_lambda > 0, (ISUM(arr1(lambda i: ite(gamete_dose[i] == 2, parent_dose[i], 0)), 0, len(gamete_dose)) / parent_ploidy) * gamete_lambda, 0.0))
     with entry():
         lemma_binom_le_924(parent_ploidy, gamete_ploidy)
         lemma_binom_pos(parent_ploidy, gamete_ploidy)
+        lemma_isum_nonneg(arr1(lambda i: ite(gamete_dose[i] == 2, parent_dose[i], 0)), 0, len(gamete_dose))
     with before_stmt("return np.log(prob)"):
         ax_exp_log(prob)
+
+
+@contract("mchap.pedigree.prior.double_reduction_permutations", machine_ints=True, props=["C17"])
+def double_reduction_permutations(gamete_dosage: A[iN, 1], parent_dosage: A[iN, 1]) -> int:
+    # a diploid gamete: non-negative dosages summing to two
+    requires(len(parent_dosage) >= len(gamete_dosage), forall(0, len(gamete_dosage), lambda i: gamete_dosage[i] >= 0), ISUM(gamete_dosage, 0, len(gamete_dosage)) == 2)
+    # C17: the parent's copies of the allele the gamete carries twice (0 if it carries two different alleles)
+    ensures(result == ISUM(arr1(lambda i: ite(gamete_dosage[i] == 2, parent_dosage[i], 0)), 0, len(gamete_dosage)))
+    with entry():
+        unfold(ISUM(arr1(lambda i: ite(gamete_dosage[i] == 2, parent_dosage[i], 0)), 0, 0))
+    with loop(0):
+        invariant(0 <= i, i <= len(gamete_dosage), n == ISUM(arr1(lambda t: ite(gamete_dosage[t] == 2, parent_dosage[t], 0)), 0, i))
+        invariant(forall(0, i, lambda t: gamete_dosage[t] == 0 or gamete_dosage[t] == 2))
+        with head():
+            unfold(ISUM(arr1(lambda t: ite(gamete_dosage[t] == 2, parent_dosage[t], 0)), 0, i + 1))
+            if gamete_dosage[i] == 2:
+                # every other dosage is zero, so nothing has been counted yet
+                with forall_intro(t, 0, i, gamete_dosage[t] == 0):
+                    lemma_isum_ge2(gamete_dosage, 0, len(gamete_dosage), t, i)
+                lemma_isum_le(arr1(lambda t: ite(gamete_dosage[t] == 2, parent_dosage[t], 0)), 0, i, 0)
+                lemma_isum_pointwise_le(arr1(lambda t: 0), arr1(lambda t: ite(gamete_dosage[t] == 2, parent_dosage[t], 0)), 0, i)
+                lemma_isum_le(arr1(lambda t: 0), 0, i, 0)
+                lemma_isum_nonneg(arr1(lambda t: 0), 0, i)
+    with before_stmt("return 0"):
+        # a dosage of one (or more than two): no allele is carried exactly twice
+        with forall_intro(t, 0, len(gamete_dosage), gamete_dosage[t] != 2):
+            if t < i:
+                lemma_isum_ge2(gamete_dosage, 0, len(gamete_dosage), t, i)
+            if t > i:
+                lemma_isum_ge2(gamete_dosage, 0, len(gamete_dosage), i, t)
+            lemma_isum_ge(gamete_dosage, 0, len(gamete_dosage), i)
+        lemma_isum_le(arr1(lambda t: ite(gamete_dosage[t] == 2, parent_dosage[t], 0)), 0, len(gamete_dosage), 0)
+        lemma_isum_pointwise_le(arr1(lambda t: 0), arr1(lambda t: ite(gamete_dosage[t] == 2, parent_dosage[t], 0)), 0, len(gamete_dosage))
+        lemma_isum_le(arr1(lambda t: 0), 0, len(gamete_dosage), 0)
+        lemma_isum_nonneg(arr1(lambda t: 0), 0, len(gamete_dosage))
